@@ -554,6 +554,7 @@ func readerTrees(r *vh.Rng, sum *vh.Summary, cw *vh.CaseWriter, perFormat int) {
 	lenientSchema = true
 	specialReaderInputs(r, sum, cw)
 	hierarchyReaders(r, sum, cw, hierCount)
+	fatalAfterTarget(r, sum, cw, 60)
 	lenientSchema = false
 }
 
